@@ -127,7 +127,7 @@ def main(argv=None):
             o = dict(opts)
             if u.bounded:
                 o["unroll"] = u.bounded + (1 if tier == "thorough" else 0)
-            work.append((u.name, o, None, 16))
+            work.append((u.name, o, None, 3))
         jobs = max(1, a.jobs)
         if jobs == 1:
             results = [_run_unit((w[0], w[1], None, None)) for w in work]
